@@ -253,11 +253,105 @@ fn cli_checksum_in_every_role(ctx: &Ctx) {
     }
 }
 
+
+/// Other SPELLINGS of one encoded public key: characters inserted into, put around or substituted in the 48-character
+/// text such that a lenient decoder could still arrive at the same 36 bytes (blanks, tabs, padding, URL-safe
+/// alphabet, line-wrapping artefacts, invisible characters, quotes).
+pub fn key_spellings(k: &str, rng: &mut Rng) -> Vec<(String, String)> {
+    let mut v: Vec<(String, String)> = Vec::new();
+    let ins = |at: usize, what: &str| format!("{}{}{}", &k[..at], what, &k[at..]);
+    for (name, ch) in [("a blank", " "), ("two blanks", "  "), ("a tab", "\t"), ("a no-break space", "\u{a0}"), ("a zero-width space", "\u{200b}"), ("a carriage return", "\r"), ("a hyphen", "-"), ("a dot", "."), ("an equals sign", "="), ("a backslash-newline artefact", "\\")] {
+        for at in [1usize, 4, 24, 47] {
+            v.push((format!("{} inserted at {}", name, at), ins(at, ch)));
+        }
+        let at = 1 + rng.below(46) as usize;
+        v.push((format!("{} inserted at {}", name, at), ins(at, ch)));
+    }
+    v.push(("a blank after every fourth character".into(), k.as_bytes().chunks(4).map(|c| std::str::from_utf8(c).unwrap()).collect::<Vec<_>>().join(" ")));
+    v.push(("padding appended".into(), format!("{}=", k)));
+    v.push(("full padding appended".into(), format!("{}====", k)));
+    v.push(("double quotes around".into(), format!("\"{}\"", k)));
+    v.push(("single quotes around".into(), format!("'{}'", k)));
+    v.push(("trailing semicolon".into(), format!("{};", k)));
+    v.push(("trailing comment".into(), format!("{} # alice", k)));
+    if k.contains('+') || k.contains('/') {
+        v.push(("URL-safe alphabet".into(), k.replace('+', "-").replace('/', "_")));
+    }
+    v.retain(|(_, s)| s != k);
+    v
+}
+
+/// The same public key listed twice in different spellings must not be accepted as two entries; and an entry the
+/// tool is willing to USE as a recipient must also be the answer when that key is looked up (naming a sender).
+fn cli_key_spellings(ctx: &Ctx) {
+    use crate::cli::Ident;
+    let mut rng = Rng::fork(ctx.seed, "C17-cli-spellings");
+    let wd = WorkDir::new("c17s");
+    let rounds = ctx.tier.pick(1, 6);
+    for round in 0..rounds {
+        // prefer a key whose text contains '+' or '/' so that the URL-safe variant exists
+        let mut alice = Ident::new("alice", "apw", &mut rng);
+        for _ in 0..20 {
+            if alice.encoded_pk.contains('+') || alice.encoded_pk.contains('/') {
+                break;
+            }
+            alice = Ident::new("alice", "apw", &mut rng);
+        }
+        let bob = Ident::new("bob", "bpw", &mut rng);
+        wd.write("p.txt", b"spelled");
+        let from_alice = refspec::encode_key_file(&alice.sk, &alice.pk, &bob.pk, &rng.arr32(), &rng.arr32(), b"hello", &[5]).unwrap();
+        wd.write("a.ktl", &from_alice);
+        let spellings = key_spellings(&alice.encoded_pk, &mut rng);
+        let wdp = &wd;
+        let (alice, bob) = (&alice, &bob);
+        crate::util::par_for(spellings.len(), crate::util::ncpu(), |i| {
+            let (what, text) = &spellings[i];
+            let mallory = format!("[Key]\nName = mallory\nPublicKey = {}\n", text);
+            for (layout, kr) in [("with the canonical entry", format!("{}\n{}\n{}", alice.entry(true), bob.entry(true), mallory)), ("alone", format!("{}\n{}", bob.entry(true), mallory))] {
+                let krname = format!("kr-{}-{}.txt", i, layout.len());
+                let outname = format!("o-{}-{}.ktl", i, layout.len());
+                wdp.write(&krname, kr.as_bytes());
+                let e = Cmd::new(&wdp.path, &["encrypt", "p.txt", "-t", "mallory", "-f", "bob", "-o", &outname, "-k", &krname, "--env-pass"]).pass("bpw").run();
+                ctx.eval();
+                let produced = std::fs::read(wdp.file(&outname)).unwrap_or_default();
+                let is_alices_key = e.exit == Exit::Code(0) && refspec::decode_key_file(&produced, &alice.sk, &alice.pk).map(|d| d.body.complete()).unwrap_or(false);
+                let case = |more: serde_json::Value| json!({"spelling": what, "public_key_text": text, "canonical_text": alice.encoded_pk, "layout": layout, "encrypt_exit": e.exit.describe(), "encrypt_stderr": e.stderr_s(), "more": more});
+                if e.exit == Exit::Timeout {
+                    ctx.inconclusive("C17 cli: timeout");
+                    continue;
+                }
+                if !is_alices_key {
+                    // refused, unusable, or read as some other key: no second spelling of alice's key was accepted
+                    ctx.seen("cli: other spelling of a public key is not accepted as that key");
+                    ctx.distinct(&format!("spelling|{}|{}|{}", round, i, layout));
+                    continue;
+                }
+                if layout == "with the canonical entry" {
+                    ctx.violation("C17:cli:accepted-a-keyring-that-must-be-rejected:same public key listed twice in different spellings", case(json!(null)));
+                    continue;
+                }
+                // alone: the tool uses this entry as alice's key; then it is the entry that holds the sender key of a.ktl
+                let d = Cmd::new(&wdp.path, &["decrypt", "a.ktl", "-t", "bob", "-k", &krname, "--env-pass"]).pass("bpw").run();
+                ctx.eval();
+                let named: Option<String> = d.stderr_s().lines().find_map(|l| l.split("File from: ").nth(1)).map(|x| x.trim().to_string());
+                if d.exit == Exit::Code(0) && named.as_deref() == Some("mallory") {
+                    ctx.seen("cli: leniently spelled key is used and found consistently");
+                    ctx.distinct(&format!("spelling|lenient|{}|{}", round, i));
+                } else {
+                    ctx.violation("C17:cli:entry-usable-as-a-recipient-is-not-found-by-its-public-key", case(json!({"decrypt_exit": d.exit.describe(), "decrypt_stderr": d.stderr_s()})));
+                }
+            }
+        });
+    }
+}
+
 pub fn cli_lanes(ctx: &Ctx) {
+    cli_key_spellings(ctx);
     cli_large_keyrings(ctx);
     cli_duplicates_and_names(ctx);
     cli_checksum_in_every_role(ctx);
     ctx.require("cli: entry with a non-matching checksum is unusable", 3);
+    ctx.require("cli: other spelling of a public key is not accepted as that key", 50);
     ctx.require("cli: keyring file written and extended by the tool holds exactly the entries written", 5);
     ctx.require("cli: keyring with a repeated name or key is refused", 3);
     ctx.require("cli: a name written by key generate selects exactly its own key", 4);
